@@ -249,6 +249,35 @@ def gen_report_argv(rng):
     return argv
 
 
+def power_lines_bad(txt, argv):
+    """the power levels the report announces for its V/m pattern and its near fields are the ones asked for on the command
+    line (--ff-power, --nf-power), section by section"""
+    import re
+    def opt(name):
+        v = [a.split('=', 1)[1] for a in argv if a.startswith(name + '=')]
+        return float(v[-1]) if v else None
+    out = []
+    ffp, nfp = opt('--ff-power'), opt('--nf-power')
+    L = txt.split('\n')
+    vm = [l for l in L if re.match(r'^\s+POWER LEVEL = ', l)]
+    if ffp and vm:
+        got = float(vm[0].split('=')[1].replace('WATTS', ''))
+        if abs(got - ffp) > 1e-5 * ffp:
+            out.append(('power-line', 'the V/m pattern announces a power level of %g W, --ff-power=%g was given' % (got, ffp)))
+    nf = [l for l in L if l.startswith('NEW POWER LEVEL (WATTS) =')]
+    if any('NEAR FIELDS' in l for l in L):
+        if nfp:
+            if not nf:
+                out.append(('power-line', 'the near-field section announces no new power level, --nf-power=%g was given' % nfp))
+            else:
+                got = float(nf[0].split('=')[1])
+                if abs(got - nfp) > 1e-5 * nfp:
+                    out.append(('power-line', 'the near-field section announces a power level of %g W, --nf-power=%g was given' % (got, nfp)))
+        elif nf:
+            out.append(('power-line', 'the near-field section announces the power level %s although none was asked for' % nf[0].split('=')[1].strip()))
+    return out
+
+
 def run(ck):
     from mininec.util import format_float
     ck.proof_side()
@@ -308,6 +337,8 @@ def run(ck):
         if rng.random() < 0.4:
             argv += ['--near-field=%g,%g,%g,0.5,0.25,1,2,1,2' % (rng.uniform(50, 60), rng.uniform(40, 50), rng.uniform(30, 60)),
                      '--option=near-field']
+            if rng.random() < 0.6:
+                argv += ['--nf-power=%g' % rng.choice([2.5, 40, 1000])]
         txt, m, kind = c19report.run_report(argv)
         ck.count('full_report_' + kind)
         if txt is None:
@@ -315,6 +346,7 @@ def run(ck):
         ck.case(('full-report', tuple(argv)), True)
         try:
             bads = c19report.report_bad(txt, m)
+            bads += power_lines_bad(txt, argv)
         except Exception as e:
             bads = [('structure', 'the report cannot be read back: %s: %s' % (type(e).__name__, e))]
         # row structure of the real text vs the Lean report model (C19c)
